@@ -1,7 +1,7 @@
 (* C07 — Every string that is not a valid RFC 9535 query is rejected.  Statements only.
    The whole-language statement is kept visible and is NOT proved (partial): *)
 From Coq Require Import List NArith ZArith Bool.
-From JP Require Import Base Ast Peg Dec2Bin Known Build Concrete BuildFacts FragParse FragBuild FragWs GenParse GenBuild FilterParse FilterBuild RejectFacts RejectMore RejectRange RejectBlank RejectTyping PegAlpha PegTree TokenFacts.
+From JP Require Import Base Ast Peg Dec2Bin Known Build Concrete BuildFacts FragParse FragBuild FragWs GenParse GenBuild FilterParse FilterBuild RejectFacts RejectMore RejectRange RejectBlank RejectTyping PegAlpha PegTree TokenFacts TokenMore TokenSeg TokenOps.
 From JP.gen Require Import Grammar.
 Import ListNotations.
 
@@ -235,6 +235,49 @@ Example C07_tokens_exist :
   inforest rname (Pair R_int 2 4 []) (parse_tokens ex_input) /\ inforest rname (Pair R_string 6 9 []) (parse_tokens ex_input)
   /\ slice ex_input 2 4 = [49; 50]%N /\ slice ex_input 6 9 = [39; 97; 39]%N.
 Proof. exact tokens_exist. Qed.
+
+(* more token facts, same method (TokenMore.v): shorthand names begin with a letter, `_` or a non-ASCII character and go on with
+   those or digits (no digit first, no blank, no punctuation); function names are a lower-case letter followed by lower-case
+   letters, digits and `_`; a number literal is a canonical integer or -0, optionally followed by a fraction and/or an exponent
+   (so 01, -01, .5 are never number tokens); true / false / null tokens are exactly these words. *)
+Theorem C07_shorthand_tokens_shape : forall s st en kids,
+  inforest rname (Pair R_member_name_shorthand st en kids) (parse_tokens s) -> shorthand_ok (slice s st en).
+Proof. exact shorthand_token_shape. Qed.
+Print Assumptions C07_shorthand_tokens_shape.
+Theorem C07_function_name_tokens_shape : forall s st en kids,
+  inforest rname (Pair R_function_name st en kids) (parse_tokens s) -> fname_shape (slice s st en).
+Proof. exact function_name_token_shape. Qed.
+Print Assumptions C07_function_name_tokens_shape.
+Theorem C07_number_tokens_shape : forall s st en kids,
+  inforest rname (Pair R_number st en kids) (parse_tokens s) -> number_shape (slice s st en).
+Proof. exact number_token_shape. Qed.
+Print Assumptions C07_number_tokens_shape.
+Theorem C07_number_tokens_no_leading_zero : forall d r, is_digit d = true -> ~ number_shape (48%N :: d :: r).
+Proof. exact number_shape_no_leading_zero. Qed.
+Theorem C07_bool_null_tokens_exact : forall s st en kids,
+  (inforest rname (Pair R_bool st en kids) (parse_tokens s) ->
+   slice s st en = [116; 114; 117; 101]%N \/ slice s st en = [102; 97; 108; 115; 101]%N)
+  /\ (inforest rname (Pair R_null st en kids) (parse_tokens s) -> slice s st en = [110; 117; 108; 108]%N).
+Proof. intros s st en kids. split; [apply bool_token_text|apply null_token_text]. Qed.
+Print Assumptions C07_bool_null_tokens_exact.
+
+(* the segments of singular queries (operands of comparisons, TokenSeg.v): an index_segment token is `[`, a canonical integer, `]`;
+   a name_segment token is `[`, a string, `]` or `.` and a shorthand name - so no blank space and nothing else inside them *)
+Theorem C07_index_segment_tokens_shape : forall s st en kids,
+  inforest rname (Pair R_index_segment st en kids) (parse_tokens s) -> index_segment_shape (slice s st en).
+Proof. exact index_segment_token_shape. Qed.
+Print Assumptions C07_index_segment_tokens_shape.
+Theorem C07_name_segment_tokens_shape : forall s st en kids,
+  inforest rname (Pair R_name_segment st en kids) (parse_tokens s) -> name_segment_shape (slice s st en).
+Proof. exact name_segment_token_shape. Qed.
+Print Assumptions C07_name_segment_tokens_shape.
+Theorem C07_no_blank_after_bracket_in_index_segment : forall b r, is_blank b = true -> ~ index_segment_shape (91%N :: b :: r).
+Proof. exact index_segment_no_blank_after_bracket. Qed.
+
+Theorem C07_comp_op_tokens : forall s st en kids,
+  inforest rname (Pair R_comp_op st en kids) (parse_tokens s) -> In (slice s st en) comp_ops.
+Proof. exact comp_op_token_text. Qed.
+Print Assumptions C07_comp_op_tokens.
 
 (* near-misses, evaluated inside Coq on the grammar of this run (a test, not the unbounded claim) *)
 Definition rejected (s : str) : bool := match parse_query s with PErr => true | _ => false end.
